@@ -43,6 +43,8 @@ UNITS = {
     "match20": (os.path.join(VERIF, "corpus/matchers.cpp"), "c++20", []),
     "coro20": (os.path.join(VERIF, "corpus/coro.cpp"), "c++20", []),
     "print17": (os.path.join(VERIF, "corpus/printing.cpp"), "c++17", []),
+    # the C++11 macro API (cpp11_shenanigans.hpp is only active at this language level)
+    "cpp11": (os.path.join(VERIF, "corpus/core11.cpp"), "c++11", []),
     "repo_ct14": (os.path.join(REPO, "test/compiling_tests_14.cpp"), "c++14", REPO_TEST_FLAGS),
     "repo_ct11": (os.path.join(REPO, "test/compiling_tests_11.cpp"), "c++14", REPO_TEST_FLAGS),
     "repo_tt": (os.path.join(REPO, "test/thread_terror.cpp"), "c++14", REPO_TEST_FLAGS),
